@@ -54,6 +54,9 @@ class TOPDirector(SectionLineParser):
         self.force_field = topology.force_field
         self.topology = topology
         self.current_meta = None
+        # is the branch of the open #ifdef/#ifndef section the selected one;
+        # decided where the section opens, inverted by #else
+        self.branch_selected = True
         self.current_itp = None
         self.itp_lines = []
         # [ molecules ] entries are collected in textual order over all
@@ -162,6 +165,7 @@ class TOPDirector(SectionLineParser):
                               "an #ifdef before.".format(lineno, line))
             else:
                self.current_meta = None
+            self.branch_selected = True
 
         elif line.startswith("#else"):
             if self.current_itp:
@@ -179,6 +183,8 @@ class TOPDirector(SectionLineParser):
                tag = self.current_meta["tag"]
                condition = inverse[self.current_meta["condition"]]
                self.current_meta = {'tag': tag, 'condition': condition}
+            if self.current_meta is not None:
+                self.branch_selected = not self.branch_selected
 
         elif line.startswith("#ifdef") or line.startswith("#ifndef"):
             if self.current_itp:
@@ -195,6 +201,10 @@ class TOPDirector(SectionLineParser):
                               "At line {} I read {} but there is still"
                               "an open #ifdef/#ifndef section from"
                               "before.".format(self.current_meta['tag'], lineno, line.split()[0]))
+            # as cpp does, the condition is evaluated once, against
+            # the defines that have been read up to this line
+            defined = self.current_meta["tag"] in self.topology.defines
+            self.branch_selected = defined == (self.current_meta["condition"] == "ifdef")
 
         elif line.split()[0] in self.pragma_actions:
             action = self.pragma_actions[line.split()[0]]
@@ -427,8 +437,12 @@ class TOPDirector(SectionLineParser):
 
     def parse_define(self, line):
         """
-        Parse define statements
+        Parse define statements. A define that sits in the branch
+        of an #ifdef/#ifndef section that is not selected is skipped.
         """
+        if self.current_meta is not None and not self.branch_selected:
+            return
+
         tokens = line.split()
 
         if len(tokens) > 2:
